@@ -341,6 +341,9 @@ PROPS = {}
 
 
 def prop(pid, **kw):
+    kw.setdefault("kind", "single")
+    kw.setdefault("proj", proj_full)
+    kw.setdefault("judge_outcomes", ("ok",))
     PROPS[pid] = kw
 
 
@@ -354,6 +357,126 @@ prop("C05", modules=["SasLexer.Properties.C05"], theorems=["SasLexer.C05_pure", 
      variants=["dev", "rel", "rel-sep"], proj=proj_views)
 prop("C09", modules=["SasLexer.Properties.C09"], theorems=["SasLexer.kernel_C09_offsets"],
      variants=["dev", "rel", "rel-sep"], proj=proj_errors)
+prop("C17", kind="bom", modules=["SasLexer.Properties.C17"], theorems=["SasLexer.kernel_C17"],
+     variants=["dev", "rel", "rel-sep"])
+prop("C16", kind="case", modules=["SasLexer.Properties.C16"], theorems=["SasLexer.C16_tables"],
+     variants=["dev", "rel", "rel-sep"])
+prop("C18", kind="sep", modules=["SasLexer.Properties.C18"], theorems=["SasLexer.C18_placement"],
+     variants=["rel", "dev"])
+prop("C19", kind="profile", modules=["SasLexer.Properties.C19"], theorems=["SasLexer.kernel_C19_debug_release"],
+     variants=["dev", "rel", "dev-sep", "rel-sep"])
+prop("C15", kind="compose", modules=["SasLexer.Properties.C15"], theorems=["SasLexer.C15_closed_decidable"],
+     variants=["rel", "dev", "rel-sep"])
+
+BOM_HEX = "efbbbf"
+
+
+def mangle_case(src, seed):
+    rng = random.Random(hash((src, seed)) & 0xFFFFFFFF)
+    mode = rng.randrange(3)
+    out = []
+    for ch in src:
+        if ch.isascii() and ch.isalpha():
+            if mode == 0:
+                ch = ch.swapcase() if rng.random() < 0.5 else ch
+            elif mode == 1:
+                ch = ch.upper()
+            else:
+                ch = ch.lower()
+        out.append(ch)
+    return "".join(out)
+
+
+CLOSED_PREFIXES = ["x=1;", "data a; set b; run;", "* comment;", "%let a=1;", ";", "proc print; run;\n", "x='a;';", "/* c */ y;",
+                   "%put hello;", "%macro m(a,b=2); %put &a; %mend;", "data a;\ndatalines;\n1 2\n;", "%* macro comment;", "a=\"q\"\"r\";",
+                   "%if 1 %then %do; x; %end;", "é='ü';\n", "﻿x;", "%m(1,2);", "x=%eval(1+2);", "y = 'it''s';\n\n"]
+
+
+class Evaluator:
+    """evaluate(hexes) -> list of (clauses|None, info); clauses None = property not applicable to this input."""
+
+    def __init__(self, pid, cfg, seed):
+        self.pid, self.cfg, self.seed = pid, cfg, seed
+        self.kind = cfg["kind"]
+        self.stats = collections.Counter()
+
+    def units(self, inputs, variants):
+        """yield (unit_key, variant_tuple) work lists per kind"""
+        k = self.kind
+        if k in ("single", "total"):
+            return [(v,) for v in variants]
+        if k in ("bom", "case", "compose"):
+            return [(v,) for v in variants]
+        if k == "sep":
+            return [(v, v + "-sep") for v in variants]
+        if k == "profile":
+            return [("dev", "rel"), ("dev-sep", "rel-sep"), ("rel-sep", "nightly-rel-sep")]
+        raise ValueError(k)
+
+    def evaluate(self, vt, hexes):
+        pid, k = self.pid, self.kind
+        res = [None] * len(hexes)
+        if k in ("single", "total"):
+            impl = impl_dump(vt[0], hexes)
+            idx = [i for i, d in enumerate(impl) if outcome(d) in self.cfg["judge_outcomes"] or k == "total"]
+            for o in ("ok", "panic", "budget"):
+                self.stats[f"impl_{vt[0]}_{o}"] += sum(1 for d in impl if outcome(d) == o)
+            verd = lean_check([f"{pid}\t{hexes[i]}\t{impl[i]}" for i in idx])
+            for i, vd in zip(idx, verd):
+                res[i] = (parse_verdict(vd), {"variant": vt[0], "dump": impl[i]})
+            return res, {vt[0]: impl}
+        if k == "bom":
+            idx = [i for i, h in enumerate(hexes) if not h.startswith(BOM_HEX)]
+            a = impl_dump(vt[0], [hexes[i] for i in idx])
+            b = impl_dump(vt[0], [BOM_HEX + hexes[i] for i in idx])
+            verd = lean_check([f"{pid}\t{hexes[i]}\t{x}\t{y}" for i, x, y in zip(idx, a, b)])
+            for i, vd, x, y in zip(idx, verd, a, b):
+                res[i] = (parse_verdict(vd), {"variant": vt[0], "dump": x, "dump_with_bom": y})
+            return res, {vt[0]: a}
+        if k == "case":
+            m = [hexs(mangle_case(unhex(h), self.seed)) for h in hexes]
+            a = impl_dump(vt[0], hexes)
+            b = impl_dump(vt[0], m)
+            verd = lean_check([f"{pid}\t{h}\t{h2}\t{x}\t{y}" for h, h2, x, y in zip(hexes, m, a, b)])
+            for i, (vd, x, y) in enumerate(zip(verd, a, b)):
+                res[i] = (parse_verdict(vd), {"variant": vt[0], "dump": x, "mangled_source": unhex(m[i]), "dump_mangled": y})
+            self.stats["case_variants_differing_from_source"] += sum(1 for h, h2 in zip(hexes, m) if h != h2)
+            return res, {vt[0]: a}
+        if k in ("sep", "profile"):
+            a = impl_dump(vt[0], hexes)
+            b = impl_dump(vt[1], hexes)
+            verd = lean_check([f"{pid}\t{h}\t{x}\t{y}" for h, x, y in zip(hexes, a, b)])
+            for i, (vd, x, y) in enumerate(zip(verd, a, b)):
+                res[i] = (parse_verdict(vd), {"variants": list(vt), "dump": x, "dump_other": y})
+            if k == "sep":
+                self.stats["macro_sep_tokens"] += sum(y.count(" 0 1 ") for y in b)  # rough: DEFAULT MacroSep
+            return res, {vt[0]: a, vt[1]: b}
+        if k == "compose":
+            rng = random.Random(self.seed)
+            pre = [hexs(p) for p in CLOSED_PREFIXES]
+            # arbitrary prefixes that happen to be closed: inputs ending in ';'
+            pool = pre + [h for h in hexes if h.endswith("3b")][:2000]
+            A = [pool[rng.randrange(len(pool))] for _ in hexes]
+            dA = impl_dump(vt[0], A)
+            dB = impl_dump(vt[0], hexes)
+            dAB = impl_dump(vt[0], [x + y for x, y in zip(A, hexes)])
+            verd = lean_check([f"{pid}\t{a}\t{b}\t{x}\t{y}\t{z}" for a, b, x, y, z in zip(A, hexes, dA, dB, dAB)])
+            for i, vd in enumerate(verd):
+                if vd == "n/a":
+                    self.stats["compose_not_applicable"] += 1
+                    continue
+                self.stats["compose_applicable"] += 1
+                res[i] = (parse_verdict(vd), {"variant": vt[0], "A": unhex(A[i]), "A_hex": A[i], "dump_A": dA[i], "dump_B": dB[i], "dump_AB": dAB[i]})
+            return res, {vt[0]: dB}
+        raise ValueError(k)
+
+
+def parse_verdict(vd):
+    if vd == "ok":
+        return []
+    if vd.startswith("fail "):
+        return vd[5:].split(",")
+    return ["checker:" + vd]
 
 
 # ---------------------------------------------------------------- main check
@@ -377,40 +500,46 @@ def write_replay(pid, kind, payload):
     return p
 
 
-def single_dump_check(pid, cfg, R, inputs, variants):
-    """judge every implementation dump with the Lean predicate; correspondence on the projection.
-    Returns (fails, disagreements): fails = list of (variant, hex, dump, clauses)"""
-    fails, disagree = [], []
-    stats = collections.Counter()
-    nontrivial = set()
-    for v in variants:
-        impl = impl_dump(v, inputs)
-        ok_idx = [i for i, d in enumerate(impl) if outcome(d) == "ok"]
-        stats[f"impl_{v}_ok"] = len(ok_idx)
-        stats[f"impl_{v}_panic"] = sum(1 for d in impl if outcome(d) == "panic")
-        stats[f"impl_{v}_budget"] = sum(1 for d in impl if outcome(d) == "budget")
-        verd = lean_check([f"{pid}\t{inputs[i]}\t{impl[i]}" for i in ok_idx])
-        for i, vd in zip(ok_idx, verd):
-            if vd != "ok":
-                fails.append((v, inputs[i], impl[i], vd[5:].split(",") if vd.startswith("fail ") else [vd]))
-        model = model_dump(v, inputs)
-        unm = 0
-        for i, (a, b) in enumerate(zip(impl, model)):
-            if outcome(b) == "unmodelled":
-                unm += 1
+def explore(ev, inputs, unit_list, cfg, do_correspondence=True):
+    """returns fails [(vt, hex, clauses, info)], disagreements [(variant, hex, impl, model)], nontrivial set"""
+    fails, disagree, nontrivial = [], [], set()
+    compared = set()
+    for vt in unit_list:
+        res, impl_by_variant = ev.evaluate(vt, inputs)
+        for h, r in zip(inputs, res):
+            if r is None:
                 continue
-            if outcome(a) in ("panic", "budget") or outcome(b) in ("panic", "budget"):
-                # totality is C01's subject; here only note whether the two sides agree on the class
-                if outcome(a) != outcome(b):
-                    stats["outcome_class_differs(C01 matter)"] += 1
+            clauses, info = r
+            ev.stats[f"judged_{'+'.join(vt)}"] += 1
+            if clauses:
+                fails.append((vt, h, clauses, info))
+        if not do_correspondence:
+            continue
+        for v, impl in impl_by_variant.items():
+            if v in compared or v.startswith("nightly"):
                 continue
-            stats[f"traces_{v}"] += 1
-            if cfg["proj"](a) != cfg["proj"](b):
-                disagree.append((v, inputs[i], a, b))
-            if len(sections(a)) >= 9 and int(sections(a)[1].split()[1]) >= 3:
-                nontrivial.add(inputs[i])
-        stats[f"model_unmodelled_{v}"] = unm
-    return fails, disagree, stats, nontrivial
+            compared.add(v)
+            model = model_dump(v, inputs)
+            for h, a, b in zip(inputs, impl, model):
+                if outcome(b) == "unmodelled":
+                    ev.stats[f"model_unmodelled_{v}"] += 1
+                    continue
+                oa, ob = outcome(a), outcome(b)
+                if oa in ("panic", "budget") or ob in ("panic", "budget"):
+                    if oa != ob:
+                        ev.stats["outcome_class_differs"] += 1
+                        if cfg.get("corr_outcomes"):
+                            disagree.append((v, h, a, b))
+                    else:
+                        ev.stats[f"traces_{v}"] += 1
+                    continue
+                ev.stats[f"traces_{v}"] += 1
+                if cfg["proj"](a) != cfg["proj"](b):
+                    disagree.append((v, h, a, b))
+                s = sections(a)
+                if len(s) >= 9 and int(s[1].split()[1]) >= 3:
+                    nontrivial.add(h)
+    return fails, disagree, nontrivial
 
 
 def check_property(pid, tier, seed):
@@ -419,8 +548,11 @@ def check_property(pid, tier, seed):
     variants = cfg["variants"] if tier == "thorough" else cfg["variants"][:3]
     obligations = discharged = 0
     broken = []      # proof / translator / correspondence obligations that no longer check
+    ev = Evaluator(pid, cfg, seed)
+    unit_list = ev.units(None, variants)
+    need = sorted({v for vt in unit_list for v in vt} | {"rel"})
 
-    ok, msg = build_harness(sorted(set(variants) | {"rel"}))
+    ok, msg = build_harness(need)
     if not ok:
         print(msg)
         print(f"check {pid}: cannot build the implementation harness from /repo's working tree")
@@ -443,78 +575,90 @@ def check_property(pid, tier, seed):
             broken.append(("axiom audit", alog[-3000:]))
     else:
         obligations, discharged = 1, 0
+    for name, fn in cfg.get("extra_obligations", []):
+        obligations += 1
+        okx, msgx = fn()
+        if okx:
+            discharged += 1
+        else:
+            broken.append((name, msgx))
 
     if not os.path.exists(SASMODEL):
-        # cannot evaluate anything without the compiled predicates
         p = write_replay(pid, "obligation", {"property": pid, "broken": [b[0] for b in broken], "detail": [b[1] for b in broken]})
         R.violations.append((p, True))
         return finish(R, cfg, obligations, discharged)
 
     # ---- inputs
     inputs = corpus_inputs()
-    for stream, n in streams_for(pid, tier).items():
+    for stream, n in cfg.get("streams", streams_for)(pid, tier).items():
         inputs += gen_stream(stream, seed, n)
     inputs = list(dict.fromkeys(inputs))
     R.cov["inputs"] = len(inputs)
     lens = [len(h) // 2 for h in inputs]
     R.cov["input_len_bytes"] = {"min": min(lens), "max": max(lens), "mean": round(sum(lens) / len(lens), 1)}
 
-    fails, disagree, stats, nontrivial = single_dump_check(pid, cfg, R, inputs, variants)
-    R.cov["stats"] = dict(stats)
-    R.cov["distinct_nontrivial"] = len(nontrivial)
+    fails, disagree, nontrivial = explore(ev, inputs, unit_list, cfg)
 
     if (broken or disagree) and not fails:
-        # search harder before giving up: more inputs, other seeds
         log(f"[{pid}] proof/correspondence broken; searching for a failing input")
         extra = []
         for k in range(1, 4):
-            for stream, n in streams_for(pid, tier).items():
+            for stream, n in cfg.get("streams", streams_for)(pid, tier).items():
                 extra += gen_stream(stream, seed + 7919 * k, n)
         for (_, h, _, _) in disagree[:50]:
             s = unhex(h)
             extra += [hexs(s[:i]) for i in range(len(s))] + [hexs(s + t) for t in (";", " ", ")", "\n", "x")]
         extra = list(dict.fromkeys(extra))
-        f2, _, _, _ = single_dump_check(pid, cfg, R, extra, variants[:2])
+        f2, _, _ = explore(ev, extra, unit_list[:2], cfg, do_correspondence=False)
         fails += f2
         R.cov["extra_search_inputs"] = len(extra)
 
     known = load_known()
     reported = 0
-    seen_sig = set()
-    for (v, h, d, clauses) in fails:
+    seen_sig = collections.Counter()
+    for (vt, h, clauses, info) in fails:
         src = unhex(h)
-        k = next((k for k in known if known_match(k, pid, src, d, clauses)), None)
+        k = next((k for k in known if known_match(k, pid, src, info.get("dump", ""), clauses)), None)
         if k is not None:
             R.known_hits[k["id"]] += 1
             continue
-        sig = (tuple(sorted(clauses)))
-        if sig in seen_sig and reported >= 3:
+        sig = tuple(sorted(clauses))
+        seen_sig[sig] += 1
+        if seen_sig[sig] > 1 or reported >= 6:
             continue
-        seen_sig.add(sig)
         reported += 1
 
-        def still(cands, v=v, clauses=clauses):
+        def still(cands, vt=vt, clauses=clauses):
             hs = [hexs(c) for c in cands]
-            ds = impl_dump(v, hs)
-            recs = [f"{pid}\t{x}\t{y}" for x, y in zip(hs, ds)]
-            vs = lean_check(recs)
-            return [vd.startswith("fail ") and bool(set(vd[5:].split(",")) & set(clauses)) and outcome(y) == "ok"
-                    and not any(known_match(k, pid, c, y, vd[5:].split(",")) for k in known)
-                    for vd, y, c in zip(vs, ds, cands)]
-        small = shrink(src, still)
-        sd = impl_dump(v, [hexs(small)])[0]
-        p = write_replay(pid, "input", {"property": pid, "variant": v, "source": small, "source_hex": hexs(small),
-                                        "failed_clauses": clauses, "dump": sd, "original_source": src,
-                                        "replay_cmd": f"./check {pid} --replay <this file>"})
+            res, _ = Evaluator(pid, cfg, seed).evaluate(vt, hs)
+            out = []
+            for c, r in zip(cands, res):
+                if r is None or not (set(r[0]) & set(clauses)):
+                    out.append(False)
+                else:
+                    out.append(not any(known_match(k, pid, c, r[1].get("dump", ""), r[0]) for k in known))
+            return out
+        small = src if cfg["kind"] == "compose" else shrink(src, still)
+        res, _ = Evaluator(pid, cfg, seed).evaluate(vt, [hexs(small)])
+        sinfo = res[0][1] if res[0] is not None else info
+        payload = {"property": pid, "variants": list(vt), "source": small, "source_hex": hexs(small), "failed_clauses": clauses,
+                   "original_source": src, "replay_cmd": f"./check {pid} --replay <this file>"}
+        payload.update(sinfo)
+        p = write_replay(pid, "input", payload)
         R.violations.append((p, False))
-    if not R.violations and not fails and (broken or disagree):
-        payload = {"property": pid, "broken_obligations": [b[0] for b in broken], "detail": [b[1][-1500:] for b in broken]}
-        if disagree:
-            v, h, a, b = disagree[0]
-            payload["correspondence"] = {"projection": cfg["proj"].__name__, "variant": v, "source": unhex(h), "source_hex": h,
-                                         "implementation": a, "model": b, "disagreeing_inputs": len(disagree)}
-        p = write_replay(pid, "obligation", payload)
-        R.violations.append((p, True))
+    R.cov["failure_signatures"] = {",".join(k): v for k, v in seen_sig.items()}
+    if not R.violations and (broken or disagree) and not (fails and not R.violations and not broken and not disagree):
+        unexplained = broken or disagree
+        if unexplained and not any(not nf for _, nf in R.violations):
+            payload = {"property": pid, "broken_obligations": [b[0] for b in broken], "detail": [b[1][-1500:] for b in broken]}
+            if disagree:
+                v, h, a, b = disagree[0]
+                payload["correspondence"] = {"projection": cfg["proj"].__name__, "variant": v, "source": unhex(h), "source_hex": h,
+                                             "implementation": a, "model": b, "disagreeing_inputs": len(disagree)}
+            p = write_replay(pid, "obligation", payload)
+            R.violations.append((p, True))
+    R.cov["stats"] = dict(ev.stats)
+    R.cov["distinct_nontrivial"] = len(nontrivial)
     R.cov["disagreements"] = len(disagree)
     R.cov["checker_failures"] = len(fails)
     R.samples = [unhex(h) for h in inputs[:3]] + [unhex(h) for h in random.Random(seed).sample(inputs, min(5, len(inputs)))]
@@ -564,20 +708,24 @@ def finish(R, cfg, obligations, discharged, infra_error=None):
 def replay(pid, path):
     r = json.load(open(path))
     if "source_hex" not in r:
-        print(json.dumps(r, indent=1, ensure_ascii=False))
+        print(json.dumps(r, indent=1, ensure_ascii=False)[:6000])
         print("(no concrete input: the replay names the obligation that no longer checks)")
         return 1
-    v = r.get("variant", "dev")
-    ok, msg = build_harness([v])
+    cfg = PROPS[pid]
+    vt = tuple(r.get("variants", ["dev"]))
+    ok, msg = build_harness(sorted(set(vt)))
     if not ok:
         print(msg)
         return 2
-    d = impl_dump(v, [r["source_hex"]])[0]
-    vd = lean_check([f"{pid}\t{r['source_hex']}\t{d}"])[0]
+    seed = int(os.environ.get("VERIF_SEED", "0") or 0)
+    res, _ = Evaluator(pid, cfg, seed).evaluate(vt, [r["source_hex"]])
     print("source:", repr(r["source"]))
-    print("dump:", d)
-    print("verdict:", vd)
-    return 0 if vd == "ok" else 1
+    if res[0] is None:
+        print("verdict: not applicable")
+        return 0
+    print("failed clauses:", res[0][0])
+    print(json.dumps(res[0][1], indent=1, ensure_ascii=False)[:4000])
+    return 0 if not res[0][0] else 1
 
 
 def main(argv):
